@@ -1697,3 +1697,100 @@ func ruleStringSources(c *Ctx, r *Report) {
 		r.info(rule, "scan/interface-assertions", "-", desc, "no Scan helper selects terms through a Go interface")
 	}
 }
+
+// ---------------------------------------------------------------------------
+// C15: R-PLACEHOLDER-UNQUOTED — added with fix F52.  "A count mismatch between placeholders and arguments is
+// an error" presupposes that the placeholders of a text can be counted: they are the UNQUOTED tokens `?`.  A
+// quoted '?' (or "?" under double_quotes=atom) is the atom; if the parser substitutes wherever the ATOM equals
+// the placeholder, no query can mention that atom, and a text that does silently consumes an argument meant
+// for a later placeholder.  Checked: where the parser takes an argument from the queue (constant index on
+// Parser.args in a function that produces a term), the branch facts include a condition computed from a
+// comparison of a token kind with tokenQuoted.
+func rulePlaceholderUnquoted(c *Ctx, r *Report) {
+	const rule = "R-PLACEHOLDER-UNQUOTED"
+	desc := "an argument is substituted only for an unquoted placeholder token"
+	k, ok := c.Engine.Members["tokenQuoted"].(*ssa.NamedConst)
+	if !ok {
+		r.undecided(rule, "anchor:tokenQuoted", "-", "locate tokenQuoted", "not found")
+		return
+	}
+	quotedV, _ := constInt(k.Value)
+	n := 0
+	for _, fn := range c.LibFuncs() {
+		if recvNamed(fn) != "Parser" || fn.Parent() != nil {
+			continue
+		}
+		eachInstr(fn, func(in ssa.Instruction) {
+			ia, ok := in.(*ssa.IndexAddr)
+			if !ok {
+				return
+			}
+			if _, ok := loadsField(ia.X, "Parser", "args"); !ok {
+				return
+			}
+			if _, isConst := ia.Index.(*ssa.Const); !isConst {
+				return
+			}
+			loaded := false
+			for _, ref := range *ia.Referrers() {
+				if u, ok := ref.(*ssa.UnOp); ok && u.Op == token.MUL {
+					loaded = true
+				}
+			}
+			if !loaded {
+				return
+			}
+			n++
+			key := fname(fn) + "/take-arg"
+			good := false
+			var look func(v ssa.Value, depth int)
+			look = func(v ssa.Value, depth int) {
+				dataSlice(v, func(x ssa.Value) bool {
+					if y, _, kk, ok := cmpConst(x); ok && kk == quotedV && isEngNamed(y.Type(), "tokenKind") {
+						good = true
+					}
+					// a flag set in the arms of a switch depends on the switch's conditions through control, not data
+					if phi, ok := x.(*ssa.Phi); ok && depth < 3 {
+						for _, cond := range controlConds(phi) {
+							look(cond, depth+1)
+						}
+					}
+					return !good
+				})
+			}
+			for f := range c.factsAt(in.Block()) {
+				look(f.cond, 0)
+			}
+			if good {
+				r.ok(rule, key, c.at(in), desc, "under a condition computed from <token kind> == tokenQuoted", true)
+			} else {
+				r.bad(rule, key, c.at(in), desc, "the substitution does not depend on whether the token was quoted: '?' is taken for a placeholder, so the atom cannot be written in a query and consumes an argument where it occurs")
+			}
+		})
+	}
+	if n == 0 {
+		r.undecided(rule, "anchor:take-arg", "-", desc, "no place where the parser takes an argument from its queue was found")
+	}
+}
+
+// controlConds: the branch conditions that decide which edge of a phi is taken: the conditions of the blocks
+// between each predecessor and the phi block's immediate dominator (inclusive), along the dominator tree.
+func controlConds(phi *ssa.Phi) []ssa.Value {
+	var out []ssa.Value
+	stop := phi.Block().Idom()
+	seen := map[*ssa.BasicBlock]bool{}
+	for _, p := range phi.Block().Preds {
+		for b := p; b != nil; b = b.Idom() {
+			if !seen[b] {
+				seen[b] = true
+				if cond := ifCond(b); cond != nil {
+					out = append(out, cond)
+				}
+			}
+			if b == stop {
+				break
+			}
+		}
+	}
+	return out
+}
